@@ -63,3 +63,14 @@ prop("C17", level="proof", runtime=True,
      not_decided=["generational distance gd(): scipy cdist / numpy reductions are outside the subset: bounded run-time contract only",
                   "sorted listings (sort_list + independent sort: 'two sorted permutations of one multiset agree'), table(), "
                   "parameters(), costs(), pareto_front(): not under contract"])
+prop("C15", level="other", runtime=True,
+     explanation="Partial: for 12 benchmark functions (Sphere, Rosenbrock, Rastrigin, Zakharov, Alpine, Griewank, Booth, Xin-She-Yang 1 and 3, "
+                 "Ackley, ModifiedEasom, SixHump) the three clauses (one real cost; nothing in the box is better than the documented "
+                 "optimum - 1e-3; optimum attained at the documented coordinates) are discharged deductively from loop invariants, the "
+                 "elementary-function axioms and polynomial arithmetic. For Schwefel, Michalewicz, Schubert, GramacyLee, Perm, "
+                 "Xin-She-Yang 2 and the four Synthetic functions the clauses need certified numerics over a box (a different technique): "
+                 "only a bounded run-time evaluation is attached. EqualityConstr cannot be brought under contract (known finding).",
+     assumptions=["A1 real arithmetic; A5 elementary-function axioms (sin, cos, exp, sqrt, pow, pi, e)",
+                  "numpy scalars and Python floats are both modelled as reals; the `total / finite` clause is only the shape obligation "
+                  "`returns a list of one real` plus the bounded run-time check"],
+     not_decided=["bound and optimum clauses of Schwefel, Michaelwicz (2/5/10), Schubert, GramacyLee, Perm, XinSheYang2, Synthetic1D/2D/5D/10D: bounded only"])
